@@ -466,7 +466,13 @@ def worker(bdir, tier, lo, hi, sweep_every):
                     if code4 == -1:
                         res.violate("C01/died-by-signal/" + site, "qmail-queue died (%s) on an injected %s" % (ss4, action), wit)
                         continue
-                    exp = expect_fault(e, action)
+                    # judge by the call the fault actually hit: the length of the Received line depends on the number of
+                    # digits of the pid, so the n-th call of this run need not be the n-th call of the reference run
+                    hit = inj[0]
+                    if hit.get("c") != e["c"]:
+                        res.counters.inc("fault_hit_other_call_than_reference")
+                    exp = expect_fault(hit, action) if action in FAULTS.get(hit.get("c"), []) else "any"
+                    wit["call"] = "%s %s" % (hit.get("c"), hit.get("path2", hit.get("path", "fd%s" % hit.get("fd"))))
                     if exp == "any":
                         pass
                     elif exp is None:
@@ -488,7 +494,7 @@ def main(tier):
     b = build.vbuild("asan")
     inputs = gen_inputs(tier)
     n = len(inputs)
-    sweep_every = 7 if tier == "quick" else 3
+    sweep_every = 3 if tier == "quick" else 1
     # interleave inputs over workers so that the big messages spread out
     parts = [(b.dir, tier, lo, hi, sweep_every) for lo, hi in core.chunks(n, 48)]
     res = core.pmap(worker, parts, timeout=3000)
